@@ -92,6 +92,10 @@ def core(ctx):
 def _module(draw, ctx):
     under = draw(st.integers(0, 2)) == 0
     pool = VNAMES + (UNDERS if under else [])
+    if draw(st.integers(0, 4)) == 0:
+        # wires named like the gates the full parser synthesises for expressions
+        pool = ["a", "b", "c", "and_a_b", "not_c", "xor_a_b", "or_not_c_xor_a_b", "and_and_a_b_c", "and_a_b_0", "not_c_0",
+                "or_a_b", "not_a", "xor_a_b_0", "d", "e", "f", "g", "h", "k", "m", "n", "p", "q", "r", "s", "t", "u", "v"]
     n_in = draw(st.integers(1, 4))
     n_def = draw(st.integers(1, 8))
     names = draw(st.lists(st.sampled_from(pool), min_size=n_in + 2 * n_def + 2, max_size=n_in + 2 * n_def + 2, unique=True))
@@ -312,7 +316,22 @@ def _compare(text, name, bbs, sem, labels):
     return fast, full
 
 
+_HISTORY = {"done": False}
+_BEHAVIOURAL = """module hist(a, b, c, y, z);
+  input a, b, c;
+  output y, z;
+  assign y = a & b;
+  assign z = ~c | (a ^ b) | (a & b & c);
+endmodule
+"""
+
+
 def check(case, ctx):
+    # history: the full parser has read a behavioural netlist earlier in this process (its
+    # synthesised gate names and_a_b, not_c, xor_a_b ... must not leak into later parses)
+    if not _HISTORY["done"]:
+        _HISTORY["done"] = True
+        need(lib(cg.io.verilog_to_circuit, _BEHAVIOURAL, "hist"), "history_parse", "full parser on a behavioural netlist")
     labels = [case["kind"]]
     if case["kind"] == "file":
         path = os.path.join(NETLISTS, case["file"])
